@@ -1,6 +1,7 @@
 package values
 
 import (
+	"reflect"
 	"sync"
 )
 
@@ -12,10 +13,20 @@ type drop interface {
 func ToLiquid(value any) any {
 	switch value := value.(type) {
 	case drop:
+		if isNilPointer(value) {
+			return nil
+		}
 		return value.ToLiquid()
 	default:
 		return value
 	}
+}
+
+// isNilPointer reports whether v holds a nil pointer. A nil pointer is nil to a template even when
+// its type is a Drop (calling a value-receiver ToLiquid through it would panic).
+func isNilPointer(v any) bool {
+	rv := reflect.ValueOf(v)
+	return rv.Kind() == reflect.Ptr && rv.IsNil()
 }
 
 type dropWrapper struct {
